@@ -74,14 +74,16 @@ pub fn run(o: &Opts) -> Report {
             // successful calls must return what they return in the plain run (= the model)
             let clean = crate::c06::run_ops(&g.file, &s, false);
             let at = 12 + rng.below(g.file.len().saturating_sub(12).max(1) as u64);
-            for (what, prefix, fault) in [("embedded", 23usize, u64::MAX), ("fault", 0usize, at), ("embedded+fault", 9usize, at)] {
-                let (got, _) = crate::c06::run_ops_unusual(&g.file, &s, prefix, fault);
-                rep.case(&format!("animunusual {what} prefix={prefix} at={fault} {} {s}", hex(&g.file)), true);
+            // the history with rejected calls sprinkled in (read_image with a buffer of the wrong length)
+            let sw: String = s.chars().flat_map(|c| if rng.chance(1, 3) { vec!['w', c] } else { vec![c] }).chain(std::iter::once('w')).collect();
+            for (what, prefix, fault) in [("embedded", 23usize, u64::MAX), ("fault", 0usize, at), ("embedded+fault", 9usize, at), ("rejected-calls", 0usize, u64::MAX)] {
+                let (got, _) = crate::c06::run_ops_unusual(&g.file, if what == "rejected-calls" { &sw } else { &s }, prefix, fault);
+                rep.case(&format!("animunusual {what} prefix={prefix} at={fault} {} {}", hex(&g.file), if what == "rejected-calls" { &sw } else { &s }), true);
                 rep.hit(&format!("unusual_reader_{what}"));
                 if got != clean {
                     let (gi, ci): (Vec<&str>, Vec<&str>) = (got.split(' ').collect(), clean.split(' ').collect());
                     let j = gi.iter().zip(ci.iter()).position(|(a, b)| a != b).unwrap_or(gi.len().min(ci.len()));
-                    rep.disagree(Disagreement { case: format!("animunusual {what} prefix={prefix} at={fault} {} {s}", hex(&g.file)), got: gi.get(j).map(|x| x.chars().take(120).collect()).unwrap_or_default(), expected: ci.get(j).map(|x| x.chars().take(120).collect()).unwrap_or_default(), class: "violation", obligation: "C07: under every call history the successful calls return the frames of the abstract player - also when the file starts behind foreign bytes in the reader, and when an earlier call failed with a transient I/O error and was repeated".into(), detail: format!("{what}; first differing successful call: #{j} of `{s}`; animation {}", g.shape()) });
+                    rep.disagree(Disagreement { case: format!("animunusual {what} prefix={prefix} at={fault} {} {}", hex(&g.file), if what == "rejected-calls" { &sw } else { &s }), got: gi.get(j).map(|x| x.chars().take(120).collect()).unwrap_or_default(), expected: ci.get(j).map(|x| x.chars().take(120).collect()).unwrap_or_default(), class: "violation", obligation: "C07: under every call history the successful calls return the frames of the abstract player - also when the file starts behind foreign bytes in the reader, when an earlier call failed with a transient I/O error and was repeated, and when read_image calls with a buffer of the wrong length were rejected in between".into(), detail: format!("{what}; first differing successful call: #{j} of `{s}`; animation {}", g.shape()) });
                 }
             }
         }
